@@ -189,7 +189,13 @@ func c04Election(p *chk.Prog, r *chk.Report) {
 				if klit, isLit := ast.Unparen(f.LocalDef(k1)).(*ast.FuncLit); isLit && klit.Type.Params.NumFields() == 1 {
 					kf := f.LitFn(klit)
 					krets := kf.Graph().Returns()
-					if len(krets) == 1 && len(retResults(krets[0])) == 1 {
+					if atoms, okA := c04StreamedKey(f, kf, klit); okA && len(atoms) == 3 && isParamIdx(kf, 0)(atoms[0]) && kf.IsConstString(atoms[1], "#") {
+						// sha256.New(); Write(node); Write("#" + address); Sum(nil): the digest of the same bytes
+						keyOK = true
+						addrPart = atoms[2]
+						keyFnObj = lf.ObjOf(k1)
+						c04KeyReadsOnly(f, kf, klit, addrPart, &keyOK)
+					} else if len(krets) == 1 && len(retResults(krets[0])) == 1 {
 						if hb := kf.MatchNew("H[:]", retResults(krets[0])[0]); hb != nil {
 							if m := kf.MatchWith(`sha256.Sum256([]byte(P + "#" + S))`, kf.Expand(hb["H"]), chk.H("P", isParamIdx(kf, 0))); m != nil {
 								keyOK = true
@@ -381,7 +387,10 @@ func c04Eligible(p *chk.Prog, r *chk.Report) {
 		g := f.Graph()
 		nodes, pool := isParam(f, "nodes"), isParam(f, "pool")
 		sets := g.Find(f.IsAssignPat("R[S]", "true"))
-		x.Check("speakersForPool:candidate-site", f.Pos(), len(sets) == 1, "", "expected one `res[s] = true`")
+		// one site fed by a source that is selected first, or one site per source (the per-node test written once as a local
+		// function and run from a loop over the members and from a loop over all nodes)
+		x.Check("speakersForPool:candidate-site", f.Pos(), len(sets) == 1 || len(sets) == 2, "", "expected one `res[s] = true` (or one per candidate source)")
+		direct := map[string]int{}
 		for _, s := range sets {
 			key := s.Node.(*ast.AssignStmt).Lhs[0].(*ast.IndexExpr).Index
 			same := func(e ast.Expr) bool { return f.SameExpr(e, key) }
@@ -419,7 +428,15 @@ func c04Eligible(p *chk.Prog, r *chk.Report) {
 					}
 					return true
 				}
-				if orig := paramOrigins(p, f, rs.X); len(orig) > 0 {
+				sl := definedBy(g, "RECV.sList.UsableSpeakers()")
+				loopSites := g.Find(func(n ast.Node) bool { return n == ast.Node(rs.X) })
+				if f.MatchWith("SL.Nodes", rs.X, chk.H("SL", sl)) != nil {
+					// ranging over the members themselves
+					direct["members"]++
+				} else if nodes(rs.X) && len(loopSites) == 1 && g.Dominated(loopSites[0], g.GPat(true, "SL.Disabled", chk.H("SL", sl))) {
+					// ranging over all known nodes, only with membership tracking disabled
+					direct["all"]++
+				} else if orig := paramOrigins(p, f, rs.X); len(orig) > 0 {
 					for _, o := range orig {
 						nodesArgs := paramOrigins(p, f, paramIdent(f, "nodes", 3))
 						var nodesArg ast.Expr
@@ -437,9 +454,33 @@ func c04Eligible(p *chk.Prog, r *chk.Report) {
 			}
 			x.Check("speakersForPool:candidates-from-membership", s.Pos(), okSrc, "", "candidates are not drawn from the usable speakers (or from all known nodes only when membership tracking is disabled)")
 		}
+		if len(sets) == 2 {
+			// two sites: one loop over the members and one over all nodes; with membership tracking enabled the members' loop runs
+			ok2 := direct["members"] == 1 && direct["all"] == 1
+			if ok2 {
+				for _, rs := range f.RangeLoops(func(e ast.Expr) bool {
+					return f.MatchWith("SL.Nodes", e, chk.H("SL", definedBy(g, "RECV.sList.UsableSpeakers()"))) != nil
+				}) {
+					hit := func(n ast.Node) bool { return n == ast.Node(rs.X) }
+					// every return reached with tracking enabled comes after the members' loop
+					w := (&chk.Walk{G: g, Stop: hit, Hit: func(n ast.Node) bool { _, isRet := n.(*ast.ReturnStmt); return isRet },
+						Cut: func(b *cfgBlock, k int) bool {
+							return g.EdgeImplies(b, k, g.GPat(true, "SL.Disabled", chk.H("SL", definedBy(g, "RECV.sList.UsableSpeakers()"))))
+						}}).Run()
+					if w.Found {
+						ok2 = false
+					}
+				}
+			}
+			x.Check("speakersForPool:both-sources", f.Pos(), ok2, "", "with two candidate sites, one must range over the usable speakers (always run when membership tracking is enabled) and the other over all nodes when it is disabled")
+		}
 		for _, rt := range g.Returns() {
 			res := retResults(rt)
-			x.Check("speakersForPool:returns-candidates", rt.Pos(), len(sets) == 1 && len(res) == 1 && f.ObjOf(res[0]) == f.RootObj(sets[0].Node.(*ast.AssignStmt).Lhs[0]), "", "speakersForPool returns something other than the filtered candidates")
+			okRet := len(sets) >= 1 && len(res) == 1
+			for _, st := range sets {
+				okRet = okRet && f.ObjOf(res[0]) == f.RootObj(st.Node.(*ast.AssignStmt).Lhs[0])
+			}
+			x.Check("speakersForPool:returns-candidates", rt.Pos(), okRet, "", "speakersForPool returns something other than the filtered candidates")
 		}
 	}
 	ne := need(x, p, "speaker", "", "nodesWithEndpoint")
@@ -477,6 +518,15 @@ func c04Eligible(p *chk.Prog, r *chk.Report) {
 			x.Check("nodesWithEndpoint:has-speaker", s.Pos(), g.Dominated(s, chk.GAnyOf(
 				g.GPat(true, "SP[N]", chk.H("SP", isParam(ne, "speakers")), chk.H("N", isName)),
 				chk.GBool(true, definedBy(g, "SP[N]", chk.H("SP", isParam(ne, "speakers")), chk.H("N", isName))))), "", "a node without a live, eligible speaker can become a candidate under the Local policy")
+			// every endpoint is looked at: a node whose serving endpoint comes after one that is skipped is still a candidate
+			if ne.LoopOf(s.Node) != nil {
+				bad := scanLeftEarly(ne, s.Node)
+				pos := s.Pos()
+				if bad != nil {
+					pos = bad.Pos()
+				}
+				x.Check("nodesWithEndpoint:every-endpoint-examined", pos, bad == nil, "", "the scan over slices and endpoints can end before the last one (break / return / jump out of the loops): the candidate set depends on the listing order")
+			}
 		}
 	}
 	pm := need(x, p, "speaker", "", "poolMatchesNodeL2")
@@ -664,4 +714,160 @@ func electionScope(p *chk.Prog, r *chk.Report) {
 	covers := !(announcesAll && onlyConstIdx && uses > 0)
 	x.Check("layer2Controller.ShouldAnnounce:key-covers-announced-addresses", pos, covers, "",
 		"the election key uses only a constant element of the address list while SetBalancer announces every address of the list")
+}
+
+// c04StreamedKey: the key function feeds a fresh sha256 hasher piece by piece and returns its digest:
+//
+//	h := sha256.New(); h.Write(X1); ...; h.Write(Xn); return h.Sum(nil)
+//
+// (straight-line, nothing else). The digest is sha256 of X1 || ... || Xn. It returns the pieces as string atoms: each Xk
+// is []byte(E) - written in place or held in a local of the key function or of the enclosing function that is assigned
+// once - and E is flattened over string concatenation, string locals assigned once being replaced by their value.
+func c04StreamedKey(outer, kf *chk.Fn, klit *ast.FuncLit) ([]ast.Expr, bool) {
+	body := klit.Body.List
+	if len(body) < 3 {
+		return nil, false
+	}
+	first, ok := body[0].(*ast.AssignStmt)
+	if !ok || len(first.Lhs) != 1 || len(first.Rhs) != 1 || kf.MatchNew("sha256.New()", first.Rhs[0]) == nil {
+		return nil, false
+	}
+	h := kf.ObjOf(first.Lhs[0])
+	isH := func(e ast.Expr) bool { return h != nil && kf.ObjOf(e) == h }
+	last, ok := body[len(body)-1].(*ast.ReturnStmt)
+	if !ok || len(last.Results) != 1 || kf.MatchWith("H.Sum(nil)", last.Results[0], chk.H("H", isH)) == nil {
+		return nil, false
+	}
+	onceDef := func(id *ast.Ident) ast.Expr {
+		o := kf.ObjOf(id)
+		v, isVar := o.(*types.Var)
+		if !isVar || v.IsField() || v.Pkg() == nil || v.Parent() == v.Pkg().Scope() {
+			return nil
+		}
+		var defs []ast.Node
+		for _, fn := range []*chk.Fn{kf, outer} {
+			for _, d := range assignsTo(fn, o) {
+				dup := false
+				for _, e := range defs {
+					if e == d {
+						dup = true
+					}
+				}
+				if !dup {
+					defs = append(defs, d)
+				}
+			}
+		}
+		if len(defs) != 1 {
+			return nil
+		}
+		as, isAs := defs[0].(*ast.AssignStmt)
+		if !isAs || len(as.Lhs) != len(as.Rhs) {
+			return nil
+		}
+		for i, l := range as.Lhs {
+			if lid, isId := l.(*ast.Ident); isId && kf.ObjOf(lid) == o {
+				return as.Rhs[i]
+			}
+		}
+		return nil
+	}
+	var flatten func(e ast.Expr, depth int) []ast.Expr
+	flatten = func(e ast.Expr, depth int) []ast.Expr {
+		e = ast.Unparen(e)
+		if be, isBin := e.(*ast.BinaryExpr); isBin && be.Op == token.ADD {
+			return append(flatten(be.X, depth), flatten(be.Y, depth)...)
+		}
+		if id, isId := e.(*ast.Ident); isId && depth < 4 {
+			if d := onceDef(id); d != nil {
+				if bt, isB := kf.Info().TypeOf(id).Underlying().(*types.Basic); isB && bt.Info()&types.IsString != 0 {
+					return flatten(d, depth+1)
+				}
+			}
+		}
+		return []ast.Expr{e}
+	}
+	var atoms []ast.Expr
+	for _, st := range body[1 : len(body)-1] {
+		var call ast.Expr
+		switch y := st.(type) {
+		case *ast.ExprStmt:
+			call = y.X
+		case *ast.AssignStmt:
+			if len(y.Rhs) == 1 {
+				blank := true
+				for _, l := range y.Lhs {
+					if id, isId := l.(*ast.Ident); !isId || id.Name != "_" {
+						blank = false
+					}
+				}
+				if blank {
+					call = y.Rhs[0]
+				}
+			}
+		}
+		if call == nil {
+			return nil, false
+		}
+		b := kf.MatchWith("H.Write(X)", call, chk.H("H", isH))
+		if b == nil {
+			return nil, false
+		}
+		x := ast.Unparen(b["X"])
+		if id, isId := x.(*ast.Ident); isId {
+			if d := onceDef(id); d != nil {
+				x = ast.Unparen(d)
+			}
+		}
+		cb := kf.MatchNew("[]byte(E)", x)
+		if cb == nil {
+			return nil, false
+		}
+		atoms = append(atoms, flatten(cb["E"], 0)...)
+	}
+	return atoms, true
+}
+
+// c04KeyReadsOnly: the key function reads nothing but its parameter, its own locals and what the address part is made
+// of (directly or through locals of the enclosing function that are assigned once from such values).
+func c04KeyReadsOnly(outer, kf *chk.Fn, klit *ast.FuncLit, addrPart ast.Expr, ok *bool) {
+	allowed := map[types.Object]bool{}
+	ast.Inspect(addrPart, func(n ast.Node) bool {
+		if id, isId := n.(*ast.Ident); isId {
+			if o := kf.ObjOf(id); o != nil {
+				allowed[o] = true
+			}
+		}
+		return true
+	})
+	var check func(root ast.Node, depth int)
+	check = func(root ast.Node, depth int) {
+		ast.Inspect(root, func(n ast.Node) bool {
+			id, isId := n.(*ast.Ident)
+			if !isId {
+				return true
+			}
+			v, isVar := kf.ObjOf(id).(*types.Var)
+			if !isVar || v.IsField() || v.Pkg() == nil || v.Parent() == v.Pkg().Scope() || allowed[v] {
+				return true
+			}
+			if v.Pos() >= klit.Pos() && v.Pos() <= klit.End() {
+				return true
+			}
+			// a captured local assigned once: what it was made of
+			defs := assignsTo(outer, v)
+			if len(defs) == 1 && depth < 3 {
+				if as, isAs := defs[0].(*ast.AssignStmt); isAs && len(as.Lhs) == len(as.Rhs) {
+					allowed[v] = true
+					for _, r := range as.Rhs {
+						check(r, depth+1)
+					}
+					return true
+				}
+			}
+			*ok = false
+			return true
+		})
+	}
+	check(klit.Body, 0)
 }
